@@ -416,7 +416,9 @@ func (o OneOfSchema[KeyType]) findUnderlyingType(data any) (KeyType, Object, err
 	}
 	for key, ref := range o.TypesValue {
 		underlyingReflectedType := ref.ReflectedType()
-		if underlyingReflectedType == reflectedType {
+		if underlyingReflectedType == reflectedType && (foundKey == nil || key < *foundKey) {
+			// Several keys may lead to members with this Go type (one object registered under two keys):
+			// always pick the smallest one, not whichever the map iteration happens to reach last.
 			keyValue := key
 			foundKey = &keyValue
 		}
